@@ -141,7 +141,22 @@ func genAnswer(c *Chooser, orig *mdns.Msg) (*mdns.Msg, string) {
 	hdr := func(t uint16) mdns.RR_Header {
 		return mdns.RR_Header{Name: name, Rrtype: t, Class: mdns.ClassINET, Ttl: 1}
 	}
-	switch c.Pick(17, "answer-kind") {
+	switch c.Pick(19, "answer-kind") {
+	case 17, 18:
+		// name-typed records whose target is the tunnel domain itself (the zone apex), or the domain with no
+		// separating dot before it, in either case of letters: there are no data labels to strip
+		apex := []string{Domain + ".", strings.ToUpper(Domain) + ".", "aa" + Domain + ".", "a" + Domain + ".", "." + Domain + ".", "a." + Domain + ".", strings.ToUpper("ab." + Domain + ".")}[c.Pick(7, "apex-target")]
+		switch c.Pick(4, "apex-type") {
+		case 0:
+			m.Answer = []mdns.RR{&mdns.MX{Hdr: hdr(mdns.TypeMX), Preference: 10, Mx: apex}}
+		case 1:
+			m.Answer = []mdns.RR{&mdns.SRV{Hdr: hdr(mdns.TypeSRV), Priority: 10, Target: apex}}
+		case 2:
+			m.Answer = []mdns.RR{&mdns.CNAME{Hdr: hdr(mdns.TypeCNAME), Target: apex}}
+		default:
+			m.Answer = []mdns.RR{&mdns.MX{Hdr: hdr(mdns.TypeMX), Preference: 10, Mx: apex}, &mdns.MX{Hdr: hdr(mdns.TypeMX), Preference: 20, Mx: "b." + Domain + "."}}
+		}
+		return m, "name-record-targets-zone-apex"
 	case 14, 15, 16:
 		// a correctly wrapped payload of another command: command letter (either case) + sub-letter + body;
 		// the client asked something else and may not have the parameters this command's decoder expects
